@@ -123,6 +123,8 @@ type PhaseOpts struct {
 	Share    float64 // share of the remaining budget this phase may use (0 = all that is left)
 	Cost     explore.CostFn
 	InProc   bool // explore inside this process (goroutines) instead of worker processes
+	Workers  int  // override the number of workers (0 = default)
+	Quiet    bool // run the whole phase inside one otherwise idle worker process (memory oracles)
 }
 
 // IsWorker reports whether this process is a shard worker (checks skip expensive setup and all
@@ -148,7 +150,14 @@ func (r *Run) Phase(name string, body explore.Body, po PhaseOpts) explore.Stats 
 		}
 		return explore.Stats{}
 	}
-	eo := explore.Options{Bound: po.Bound, Workers: r.Workers, SplitLen: po.SplitLen, Cost: po.Cost, MaxViol: 40, StopOnSig: true}
+	nw := r.Workers
+	if po.Workers > 0 {
+		nw = po.Workers
+	}
+	if po.Quiet {
+		nw = 1
+	}
+	eo := explore.Options{Whole: po.Quiet, Bound: po.Bound, Workers: nw, SplitLen: po.SplitLen, Cost: po.Cost, MaxViol: 40, StopOnSig: true}
 	if wp := os.Getenv("VERIF_WORKER_PHASE"); wp != "" {
 		if wp == name {
 			explore.Serve(body, eo, os.Stdin, os.Stdout)
@@ -196,6 +205,9 @@ func (r *Run) Fold(name string, st explore.Stats, wall time.Duration, bound int)
 		"exhaustive": st.Exhaustive, "violating_executions": st.Violations, "wall_s": round(wall.Seconds())}
 	if len(st.Outcomes) > 0 {
 		ph["outcomes"] = st.Outcomes
+	}
+	if len(st.Counters) > 0 {
+		ph["counters"] = st.Counters
 	}
 	r.phases = append(r.phases, ph)
 	for _, s := range st.Samples {
